@@ -12,6 +12,21 @@ open Sarpy.Spec.Lifecycle
       op:  `w<i>,<r0>,<n>`  `f` flush  `c`  `x`  `e`  `d`
     answer: `refused`  or  `init:<clobbered>` followed by one token per op
             `<out>:<closed>:<fileOpen>:<seg>;<seg>...`   seg = `<claims>,<count>,<handed>,<deliv bits>,<rows bits>`
+  request  `C <nfiles> <pre ids, comma separated, or -> <phase>* / <node>* | <op>*`      (reader construction, part (c))
+      phase: `n` the list initialisation of NITFReader.__init__   `t<id>` a handler creates and registers temp file <id>
+             `b:<ids or ->` BaseReader.__init__(delete_files=ids)     - guards as in Spec (`nitfCtor` / `baseCtor`)
+      node, op as for `R`
+    answer: `fail`  or  `init:<registered ids>:<created ids>` followed by one token per op
+            `<out>:<closed flags>:<files open>:<on disk? for each id of pre ++ created>`
+  request  `B <p0|p1|m|r> <check 0/1> <rows>x<cols>,... <seg>,<seg>... | <op>*`          (blocked writers, part (d))
+      seg: `<data segment index>:<samples per pixel>:<r0>.<c0>.<h>.<w>/<r0>.<c0>.<h>.<w>...`
+      op:  `w<i>,<a>,<n>,<c>,<m>` (rows a..a+n-1, columns c..c+m-1)  `f`  `c`  `x`  `e`  `d`
+    answer: `refused`  or  `init:<clobbered>` followed by one token per op
+            `<out>:<closed>:<fileOpen>:<seg>;<seg>...`   seg = `<claims>,<handed>,<blk>/<blk>...`
+            blk = `<claims>.<count>.<deliv bits, row major>.<written bits, row major>`
+  request  `E <a|e|f|d> <n|0|1>`     what is at the path (absent / empty file / non-empty file / directory), check_existence
+                                     (not given / False / True)                                           (part (e))
+    answer: `refused:<kept>` | `failed:<kept>` | `opened<clobbered>:<kept>`
 -/
 
 def bit (b : Bool) : String := if b then "1" else "0"
@@ -96,8 +111,106 @@ def parseTarget (t : String) : Option Target :=
 def splitBar (toks : List String) : List String × List String :=
   (toks.takeWhile (· ≠ "|"), (toks.dropWhile (· ≠ "|")).drop 1)
 
+def ids (l : List Nat) : String := if l.isEmpty then "-" else ",".intercalate (l.map toString)
+def parseIds (t : String) : Option (List Nat) :=
+  if t == "-" then some [] else (t.splitOn ",").mapM (·.toNat?)
+
+/-- phases of a construction request, with the guards the Spec constructors have -/
+def parsePhase (t : String) : Option (List Phase) :=
+  if t == "n" then some [.initList true]
+  else if t.startsWith "t" then (t.drop 1).toNat?.map (fun f => [.mkTemp f true])
+  else if t.startsWith "b:" then (parseIds (t.drop 2).toString).map baseCtor
+  else none
+
+def showC (x : CReader) (o : Out) : String :=
+  s!"{showOut o}:{bits (flags x.r.root)}:{bits x.r.files}:{bits ((x.pre ++ x.c.made).map x.onDisk)}"
+
+def runC (x : CReader) : List ROp → List String
+  | [] => []
+  | op :: ops => let r := x.step op; showC r.1 r.2 :: runC r.1 ops
+
+def bits2 (p : List (List Bool)) : String := bits p.flatten
+
+def showBlk (spp : Nat) (b : Blk) : String :=
+  s!"{bit (b.claims spp)}.{b.count}.{bits2 b.deliv}.{bits2 b.pix}"
+
+def showBSeg (g : BSeg) : String :=
+  s!"{bit g.claims},{bit g.handed}," ++ "/".intercalate (g.blocks.map (showBlk g.spp))
+
+def showWB (s : WBState) (o : Out) : String :=
+  s!"{showOut o}:{bit s.closed}:{bit s.fileOpen}:" ++ ";".intercalate (s.segs.map showBSeg)
+
+def runWB (s : WBState) : List WBOp → List String
+  | [] => []
+  | op :: ops => let r := wbstep s op; showWB r.1 r.2 :: runWB r.1 ops
+
+def parseWBOp (t : String) : Option WBOp :=
+  if t.startsWith "w" then
+    match (t.drop 1).toString.splitOn "," with
+    | [i, a, n, c, m] => do pure (.write (← i.toNat?) (← a.toNat?) (← n.toNat?) (← c.toNat?) (← m.toNat?))
+    | _ => none
+  else if t == "f" then some .flush
+  else if t == "c" then some .close
+  else if t == "x" then some .exit
+  else if t == "e" then some .exitErr
+  else if t == "d" then some .del
+  else none
+
+def parseBlkDef (t : String) : Option (Nat × Nat × Nat × Nat) :=
+  match t.splitOn "." with
+  | [a, b, c, d] => do pure (← a.toNat?, ← b.toNat?, ← c.toNat?, ← d.toNat?)
+  | _ => none
+
+def parseBSegDef (t : String) : Option (Nat × Nat × List (Nat × Nat × Nat × Nat)) :=
+  match t.splitOn ":" with
+  | [coll, spp, bl] => do pure (← coll.toNat?, ← spp.toNat?, ← (bl.splitOn "/").mapM parseBlkDef)
+  | _ => none
+
+def splitSlash (toks : List String) : List String × List String :=
+  (toks.takeWhile (· ≠ "/"), (toks.dropWhile (· ≠ "/")).drop 1)
+
+def parsePre (t : String) : Option PrePath :=
+  if t == "a" then some .absent else if t == "e" then some .emptyFile
+  else if t == "f" then some .nonEmptyFile else if t == "d" then some .directory else none
+
+def parseCheck (t : String) : Option (Option Bool) :=
+  if t == "n" then some none else if t == "0" then some (some false) else if t == "1" then some (some true) else none
+
 def lifeStep (toks : List String) : Option String :=
   match toks with
+  | ["E", pre, ck] => do
+    let pre ← parsePre pre
+    let ck ← parseCheck ck
+    let k := bit (kept pre ck)
+    pure (match pathCtor pre ck with
+      | .refused => s!"refused:{k}"
+      | .failed => s!"failed:{k}"
+      | .opened c => s!"opened{bit c}:{k}")
+  | "C" :: nf :: pre :: rest => do
+    let nf ← nf.toNat?
+    let pre ← parseIds pre
+    let (ptoks, rest2) := splitSlash rest
+    let phases ← ptoks.mapM parsePhase
+    let (nodes, ops) := splitBar rest2
+    let (forest, left) ← parseForest (nodes.length + 1) 1 nodes
+    if !left.isEmpty then none
+    let ops ← ops.mapM parseROp
+    match forest with
+    | .nil => none
+    | .cons _ p f cf kids _ =>
+      match cinitReader phases.flatten pre p f cf kids nf with
+      | none => pure "fail"
+      | some x => pure (" ".intercalate (s!"init:{ids x.c.registered}:{ids x.c.made}" :: runC x ops))
+  | "B" :: tg :: ck :: shapes :: segs :: rest => do
+    let tg ← parseTarget tg
+    let ck ← (ck.toList.head?).bind parseBit
+    let shapes ← (shapes.splitOn ",").mapM parseShape
+    let segs ← (segs.splitOn ",").mapM parseBSegDef
+    let (_, ops) := splitBar rest
+    let ops ← ops.mapM parseWBOp
+    match wbinit { target := tg, check := ck, shapes := shapes, segs := segs } with
+    | none => pure "refused"
+    | some s => pure (" ".intercalate (s!"init:{bit s.clobbered}" :: runWB s ops))
   | "R" :: nf :: nt :: rest => do
     let nf ← nf.toNat?
     let nt ← nt.toNat?
